@@ -14,6 +14,13 @@
       contract's reflective method set, so any external account can run them by name;
     - [d_ibtp_no_revert]: the IBTP path ([tx.IsIBTP] -> [HandleIBTP]) never reverts on error;
     - [d_failed_events]: events posted by a FAILED transaction are still harvested into [Counter];
+    - [d_prev_from_memory]: [SetState] takes the journaled previous value from the in-memory tiers
+      only (dirty, origin, account cache) instead of reading through to the store: for a key that
+      is only on disk (cold cache after a restart, not read in this block) the journal says "no
+      previous value" and the revert leaves a deletion marker;
+    - [d_revert_drops_tombstone]: reverting a write whose journaled previous value is "absent"
+      removes the in-block entry instead of restoring the deletion marker, so the key reads as
+      its value at the start of the block again (an earlier deletion in the same block is lost);
     - [d_stale_changer]: [ClearChangerAndRefund] replaces the ledger's changer object while the
       account objects already loaded in this block keep the old one, so their later journal
       entries are invisible to [RevertToSnapshot].
@@ -30,15 +37,19 @@ Record xcfg := {
   d_ibtp_no_revert : bool;
   d_failed_events : bool;
   d_stale_changer : bool;
+  d_prev_from_memory : bool;
+  d_revert_drops_tombstone : bool;
   x_fees : fcfg       (* transfer and fee flags, see Model/Fees.v *)
 }.
 
 Definition xcfg_fixed : xcfg :=
   {| d_raw_add := false; d_stub_promoted := false; d_ibtp_no_revert := false;
-     d_failed_events := false; d_stale_changer := false; x_fees := fcfg_fixed |}.
+     d_failed_events := false; d_stale_changer := false;
+     d_prev_from_memory := false; d_revert_drops_tombstone := false; x_fees := fcfg_fixed |}.
 Definition xcfg_faithful : xcfg :=
   {| d_raw_add := true; d_stub_promoted := true; d_ibtp_no_revert := true;
-     d_failed_events := true; d_stale_changer := true; x_fees := fcfg_faithful |}.
+     d_failed_events := true; d_stale_changer := true;
+     d_prev_from_memory := true; d_revert_drops_tombstone := true; x_fees := fcfg_faithful |}.
 
 Inductive undo :=
 | UStore (k : key) (prev : option N)
@@ -57,8 +68,16 @@ Record st := mkSt {
   loaded : N -> option N;   (* changer generation the in-block account object is bound to *)
   gen : N;                  (* generation of the ledger's current changer *)
   log : list undo;          (* undo log of the current changer, newest first *)
-  evs : list event          (* event buffer of the current transaction *)
+  evs : list event;         (* event buffer of the current transaction *)
+  warm : key -> bool;       (* the key's value is held by an in-memory tier (dirty / origin / account cache);
+                               false = only on disk (cold cache after a restart, not yet read or written) *)
+  base : key -> option N    (* the store at the start of the block (what a read falls through to when the
+                               in-block entry of a key is dropped) *)
 }.
+
+(** The view [store] is what a read returns: the in-block entries (dirty values and deletion
+    markers, [None]) over the committed tiers.  [warm] and [base] only matter for the two faithful
+    ledger flags above. *)
 
 Definition kset (f : key -> option N) (k : key) (v : option N) : key -> option N :=
   fun x => if key_eqb x k then v else f x.
@@ -69,7 +88,7 @@ Definition touch (s : st) (a : N) : st :=
   match loaded s a with
   | Some _ => s
   | None => mkSt (store s) (bal s) (nonce s)
-                 (fun x => if (x =? a)%N then Some (gen s) else loaded s x) (gen s) (log s) (evs s)
+                 (fun x => if (x =? a)%N then Some (gen s) else loaded s x) (gen s) (log s) (evs s) (warm s) (base s)
   end.
 
 (** is the account object bound to the changer that [RevertToSnapshot] will consult? *)
@@ -77,14 +96,23 @@ Definition live (c : xcfg) (s : st) (a : N) : bool :=
   negb (d_stale_changer c) ||
   match loaded s a with None => true | Some g => (g =? gen s)%N end.
 
+(** the previous value a journaled store write records *)
+Definition jprev (c : xcfg) (s : st) (k : key) : option N :=
+  match (if d_prev_from_memory c && negb (warm s k) then None else store s k) with
+  | Some v => Some v
+  | None => if d_revert_drops_tombstone c then base s k else None
+  end.
+
 Definition jstore (c : xcfg) (s : st) (k : key) (v : option N) : st :=
   let s1 := touch s (fst k) in
   mkSt (kset (store s1) k v) (bal s1) (nonce s1) (loaded s1) (gen s1)
-       (if live c s1 (fst k) then UStore k (store s1 k) :: log s1 else log s1) (evs s1).
+       (if live c s1 (fst k) then UStore k (jprev c s1 k) :: log s1 else log s1) (evs s1)
+       (fun x => key_eqb x k || warm s1 x) (base s1).
 
 Definition rawstore (s : st) (k : key) (v : option N) : st :=
   let s1 := touch s (fst k) in
-  mkSt (kset (store s1) k v) (bal s1) (nonce s1) (loaded s1) (gen s1) (log s1) (evs s1).
+  mkSt (kset (store s1) k v) (bal s1) (nonce s1) (loaded s1) (gen s1) (log s1) (evs s1)
+       (fun x => key_eqb x k || warm s1 x) (base s1).
 
 Definition rawadd (c : xcfg) (s : st) (k : key) (v : N) : st :=
   if d_raw_add c then rawstore s k (Some v) else jstore c s k (Some v).
@@ -92,21 +120,25 @@ Definition rawadd (c : xcfg) (s : st) (k : key) (v : N) : st :=
 Definition setbal (c : xcfg) (s : st) (a : N) (v : Z) : st :=
   let s1 := touch s a in
   mkSt (store s1) (bset (bal s1) a v) (nonce s1) (loaded s1) (gen s1)
-       (if live c s1 a then UBal a (bal s1 a) :: log s1 else log s1) (evs s1).
+       (if live c s1 a then UBal a (bal s1 a) :: log s1 else log s1) (evs s1) (warm s1) (base s1).
 
 Definition setnonce (c : xcfg) (s : st) (a : N) (v : N) : st :=
   let s1 := touch s a in
   mkSt (store s1) (bal s1) (nset (nonce s1) a v) (loaded s1) (gen s1)
-       (if live c s1 a then UNonce a (nonce s1 a) :: log s1 else log s1) (evs s1).
+       (if live c s1 a then UNonce a (nonce s1 a) :: log s1 else log s1) (evs s1) (warm s1) (base s1).
+
+Definition peek (s : st) (k : key) : st :=
+  let s1 := touch s (fst k) in
+  mkSt (store s1) (bal s1) (nonce s1) (loaded s1) (gen s1) (log s1) (evs s1) (fun x => key_eqb x k || warm s1 x) (base s1).
 
 Definition postev (s : st) (e : event) : st :=
-  mkSt (store s) (bal s) (nonce s) (loaded s) (gen s) (log s) (evs s ++ [e]).
+  mkSt (store s) (bal s) (nonce s) (loaded s) (gen s) (log s) (evs s ++ [e]) (warm s) (base s).
 
 Definition apply_undo (u : undo) (s : st) : st :=
   match u with
-  | UStore k p => mkSt (kset (store s) k p) (bal s) (nonce s) (loaded s) (gen s) (log s) (evs s)
-  | UBal a p => mkSt (store s) (bset (bal s) a p) (nonce s) (loaded s) (gen s) (log s) (evs s)
-  | UNonce a p => mkSt (store s) (bal s) (nset (nonce s) a p) (loaded s) (gen s) (log s) (evs s)
+  | UStore k p => mkSt (kset (store s) k p) (bal s) (nonce s) (loaded s) (gen s) (log s) (evs s) (warm s) (base s)
+  | UBal a p => mkSt (store s) (bset (bal s) a p) (nonce s) (loaded s) (gen s) (log s) (evs s) (warm s) (base s)
+  | UNonce a p => mkSt (store s) (bal s) (nset (nonce s) a p) (loaded s) (gen s) (log s) (evs s) (warm s) (base s)
   end.
 
 Fixpoint undo_list (l : list undo) (s : st) : st :=
@@ -120,12 +152,12 @@ Fixpoint undo_list (l : list undo) (s : st) : st :=
     position 0 of the (fresh) changer *)
 Definition revert_all (s : st) : st :=
   let s' := undo_list (log s) s in
-  mkSt (store s') (bal s') (nonce s') (loaded s') (gen s') [] (evs s').
+  mkSt (store s') (bal s') (nonce s') (loaded s') (gen s') [] (evs s') (warm s') (base s').
 
 (** [Finalise(true)] -> [ClearChangerAndRefund]: a new changer only when the current one has entries *)
 Definition finalise (s : st) : st :=
   mkSt (store s) (bal s) (nonce s) (loaded s)
-       (match log s with [] => gen s | _ => N.succ (gen s) end) [] [].
+       (match log s with [] => gen s | _ => N.succ (gen s) end) [] [] (warm s) (base s).
 
 (** ------------------------------------------------------------------------------------ *)
 (** contract bodies *)
@@ -135,6 +167,7 @@ Inductive prog :=
 | Fail (tana : bool)                          (* return boltvm.Error; [tana]: the text contains "target appchain not available" *)
 | Panic                                       (* Go panic, recovered by the nearest BoltVM.Run / HandleIBTP *)
 | Touch (a : N) (k : prog)                    (* any read of an account: loads its object *)
+| Peek (kk : key) (k : prog)                  (* Stub.Get of a key: loads the account, the value becomes warm *)
 | JWrite (kk : key) (v : N) (k : prog)        (* Stub.Set / SetObject *)
 | JDelete (kk : key) (k : prog)               (* Stub.Delete *)
 | RawAdd (kk : key) (v : N) (k : prog)        (* Stub.Add / AddObject *)
@@ -151,6 +184,7 @@ Fixpoint run (c : xcfg) (p : prog) (s : st) : st * result :=
   | Fail t => (s, RErr t)
   | Panic => (s, RErr false)
   | Touch a k => run c k (touch s a)
+  | Peek kk k => run c k (peek s kk)
   | JWrite kk v k => run c k (jstore c s kk (Some v))
   | JDelete kk k => run c k (jstore c s kk None)
   | RawAdd kk v k => run c k (rawadd c s kk v)
@@ -166,6 +200,7 @@ Fixpoint raws (c : xcfg) (p : prog) (s : st) : list (key * N) :=
   match p with
   | Done | Fail _ | Panic => []
   | Touch a k => raws c k (touch s a)
+  | Peek kk k => raws c k (peek s kk)
   | JWrite kk v k => raws c k (jstore c s kk (Some v))
   | JDelete kk k => raws c k (jstore c s kk None)
   | RawAdd kk v k => (kk, v) :: raws c k (rawadd c s kk v)
@@ -180,7 +215,7 @@ Fixpoint raws (c : xcfg) (p : prog) (s : st) : list (key * N) :=
 Fixpoint footprint (p : prog) : list key :=
   match p with
   | Done | Fail _ | Panic => []
-  | Touch _ k | SetBal _ _ k | PostEvent _ k => footprint k
+  | Touch _ k | Peek _ k | SetBal _ _ k | PostEvent _ k => footprint k
   | JWrite kk _ k | JDelete kk k | RawAdd kk _ k => kk :: footprint k
   | Cross _ i a b => footprint i ++ footprint a ++ footprint b
   end.
@@ -250,7 +285,7 @@ Definition is_ok (r : result) : bool := match r with ROk => true | RErr _ => fal
 Definition tana_of (r : result) : bool := match r with ROk => false | RErr t => t end.
 
 Definition clear_frame (s : st) : st :=
-  mkSt (store s) (bal s) (nonce s) (loaded s) (gen s) [] [].
+  mkSt (store s) (bal s) (nonce s) (loaded s) (gen s) [] [] (warm s) (base s).
 
 (** body of the transaction including its own revert: state, result *)
 Definition tx_body (c : xcfg) (s0 : st) (t : tx) : st * result :=
@@ -316,7 +351,7 @@ Definition apply_tx (c : xcfg) (e : fenv) (idx : N) (s : st) (t : tx)
 (** a block: the account objects of the previous block are dropped ([Clear]); [pre] are the
     accounts that proof verification loads before the first transaction *)
 Definition new_block (s : st) (pre : list N) : st :=
-  fold_left touch pre (mkSt (store s) (bal s) (nonce s) (fun _ => None) (gen s) [] []).
+  fold_left touch pre (mkSt (store s) (bal s) (nonce s) (fun _ => None) (gen s) [] [] (warm s) (store s)).
 
 Fixpoint apply_txs (c : xcfg) (e : fenv) (idx : N) (s : st) (ts : list tx)
   : st * list receipt * list counter_entry :=
@@ -367,6 +402,8 @@ Inductive cbody :=
 | CStub (sc : stubcall)        (* promoted Stub method by name on a contract *)
 | CIbtp (p : prog)
 | CGrant (newadmin : N) (ok : bool)   (* the governance call that approves an admin registration *)
+| CGet (k : key)                      (* a contract read that succeeds iff the key is present (Store.Get, GetInterchain) *)
+| CPutIfAbsent (k : key) (v : N)      (* read the key, write it only when absent, succeed (InterchainManager.Register) *)
 | CBad.
 
 Record ctx := { c_from : N; c_nonce : N; c_body : cbody; c_invalid : bool }.
@@ -383,6 +420,8 @@ Definition tx_of (c : xcfg) (e : fenv) (t : ctx) : tx :=
                 | CStub sc => KBvm (fun _ => stub_prog c sc)
                 | CIbtp p => KIbtp (fun _ => p)
                 | CGrant na ok => KBvm (grant_body e na ok)
+                | CGet k => KBvm (fun s => Peek k (match store s k with Some _ => Done | None => Fail false end))
+                | CPutIfAbsent k v => KBvm (fun s => Peek k (match store s k with Some _ => Done | None => JWrite k v Done end))
                 | CBad => KBad
                 end |}.
 
@@ -390,6 +429,7 @@ Definition keys_of (t : ctx) : list key :=
   match c_body t with
   | CBvm p | CIbtp p => footprint p
   | CStub sc => match sc with SSet k _ | SDelete k | SAdd k _ => [k] | SPostInterchain _ => [] end
+  | CPutIfAbsent k _ => [k]
   | _ => []
   end.
 
@@ -406,14 +446,20 @@ Record xcase := {
   xc_obals : list (N * Z);
   xc_ononces : list (N * N);
   xc_ocnt : list (N * (N * bool * bool));
-  xc_other : N
+  xc_other : N;
+  xc_warm : option (list key);                (* None: every key warm; Some l: exactly the keys of l are warm (after a restart) *)
+  xc_meta : list (option N * option N)        (* metamorphic pairs: (observed in this run, observed in the run of the same
+                                                 history without the FAILED transactions): final values of the tracked keys
+                                                 and results of the reads *)
 }.
 
 Definition st_of (k : xcase) : st :=
   mkSt (fun x => match alookup key_eqb x (xc_keys k) with Some v => v | None => None end)
        (of_alist (xc_bals k))
        (fun a => match alookup N.eqb a (xc_nonces k) with Some v => v | None => 0%N end)
-       (fun _ => None) 0%N [] [].
+       (fun _ => None) 0%N [] []
+       (fun x => match xc_warm k with None => true | Some l => existsb (key_eqb x) l end)
+       (fun x => match alookup key_eqb x (xc_keys k) with Some v => v | None => None end).
 
 Definition optN_eqb := option_eqb N.eqb.
 Definition cent_eqb (a b : counter_entry) : bool :=
@@ -466,7 +512,7 @@ Fixpoint spec_chain (e : fenv) (b : bals) (n : N -> N) (ts : list ctx) : bals * 
   match ts with
   | [] => (b, n)
   | t :: r =>
-      let s := mkSt (fun _ => None) b n (fun _ => None) 0%N [] [] in
+      let s := mkSt (fun _ => None) b n (fun _ => None) 0%N [] [] (fun _ => true) (fun _ => None) in
       let t' := tx_of xcfg_fixed e t in
       spec_chain e (spec_bal e s t') (spec_nonce s t') r
   end.
@@ -478,6 +524,12 @@ Definition p_allfailed_b (k : xcase) : bool :=
     forallb (fun p : N * Z => b (fst p) =? snd p) (xc_obals k) &&
     forallb (fun p : N * N => (n (fst p) =? snd p)%N) (xc_ononces k).
 
+(** 4. metamorphic form of the property on the implementation alone: running the same history
+    without its FAILED transactions gives the same values of the tracked keys and the same
+    results of the reads *)
+Definition p_meta_b (k : xcase) : bool :=
+  forallb (fun p : option N * option N => optN_eqb (fst p) (snd p)) (xc_meta k).
+
 (** verdicts: (2, 100*p + i) predicate p false on the implementation trace (i = matching allowed
     configuration, 0 none); (0, i) fine; (1, 0) predicates hold but no allowed configuration matches *)
 Definition judge_frame (k : xcase) : verdict :=
@@ -486,6 +538,7 @@ Definition judge_frame (k : xcase) : verdict :=
   else if negb (p_store_b k) then V_propfalse (100 + i)%N
   else if negb (p_counter_b k) then V_propfalse (200 + i)%N
   else if negb (p_allfailed_b k) then V_propfalse (300 + i)%N
+  else if negb (p_meta_b k) then V_propfalse (500 + i)%N
   else if (i =? 0)%N then V_mismatch 0 else (0%N, i).
 
 (** C14 judge: the conservation and non-negativity predicates of [Model/Fees.v] on the
